@@ -47,19 +47,22 @@ def truncAt (s : Nat) : List Block → Option (List Block)
 
 def flush (buf : List Block) : Option Out := if buf = [] then none else some (.forwards buf)
 
-/-- one `poll_next`; reader replies are consumed from the script, `none` = nothing available -/
-def poll (c : Cfg) : List Block → List (Option Ev) → Option Out × List (Option Ev)
-  | buf, [] => (flush buf, [])
-  | buf, none :: rs => (flush buf, rs)
-  | buf, some (.fwd b) :: rs =>
-    if b.number > c.untilN then (flush buf, rs)
-    else if (buf ++ [b]).length ≥ c.maxPer ∨ b.number ≥ c.untilN then (some (.forwards (buf ++ [b])), rs)
-    else poll c (buf ++ [b]) rs
-  | buf, some (.back s) :: rs =>
-    if s = c.fromSlot then poll c buf rs
+/-- one `poll_next`; reader replies are consumed from the script, `none` = nothing available.
+`lp` is the streamer's `last_polled_point` (its slot): it is set by every forward at or below the
+target and by every roll-back that is not skipped. After the repair of the class-1 defect only the
+INITIAL roll-back of a scan (`lp = none`) to the start slot is skipped. -/
+def poll (c : Cfg) : Option Nat → List Block → List (Option Ev) → Option Out × List (Option Ev) × Option Nat
+  | lp, buf, [] => (flush buf, [], lp)
+  | lp, buf, none :: rs => (flush buf, rs, lp)
+  | lp, buf, some (.fwd b) :: rs =>
+    if b.number > c.untilN then (flush buf, rs, lp)
+    else if (buf ++ [b]).length ≥ c.maxPer ∨ b.number ≥ c.untilN then (some (.forwards (buf ++ [b])), rs, some b.slot)
+    else poll c (some b.slot) (buf ++ [b]) rs
+  | lp, buf, some (.back s) :: rs =>
+    if s = c.fromSlot ∧ lp = none then poll c lp buf rs
     else match truncAt s buf with
-      | some buf' => poll c buf' rs
-      | none => (some (.backward s), rs)
+      | some buf' => poll c (some s) buf' rs
+      | none => (some (.backward s), rs, some s)
 
 def applyOut (S : List Block) : Option Out → List Block
   | none => S
@@ -80,14 +83,19 @@ def applyAll (V : List Block) : List (Option Ev) → List Block
 def Lt (a b : Block) : Prop := a.number < b.number ∧ a.slot < b.slot ∧ a.hash ≠ b.hash
 def Sorted (V : List Block) : Prop := V.Pairwise Lt
 
-def GoodEv (c : Cfg) (V : List Block) : Ev → Prop
-  | .fwd b => ∀ x ∈ V, Lt x b
-  | .back s => if s = c.fromSlot then ∀ x ∈ V, x.slot ≤ s else (∃ x ∈ V, x.slot = s) ∨ V = []
+/-- the streamer's `last_polled_point` after one reply -/
+def lpNext (c : Cfg) (lp : Option Nat) : Ev → Option Nat
+  | .fwd b => if b.number > c.untilN then lp else some b.slot
+  | .back s => if s = c.fromSlot ∧ lp = none then lp else some s
 
-def Good (c : Cfg) : List Block → List (Option Ev) → Prop
-  | _, [] => True
-  | V, none :: rs => Good c V rs
-  | V, some e :: rs => GoodEv c V e ∧ Good c (applyEv V e) rs
+def GoodEv (c : Cfg) (lp : Option Nat) (V : List Block) : Ev → Prop
+  | .fwd b => ∀ x ∈ V, Lt x b
+  | .back s => if s = c.fromSlot ∧ lp = none then ∀ x ∈ V, x.slot ≤ s else (∃ x ∈ V, x.slot = s) ∨ V = []
+
+def Good (c : Cfg) : Option Nat → List Block → List (Option Ev) → Prop
+  | _, _, [] => True
+  | lp, V, none :: rs => Good c lp V rs
+  | lp, V, some e :: rs => GoodEv c lp V e ∧ Good c (lpNext c lp e) (applyEv V e) rs
 
 theorem applyAll_append (V : List Block) (a b : List (Option Ev)) :
     applyAll V (a ++ b) = applyAll (applyAll V a) b := by
@@ -316,46 +324,47 @@ theorem inv_back_full {c : Cfg} {S buf V : List Block} {s : Nat} (h : Inv c S bu
 
 /-! ## one poll refines the abstract application of the replies it consumed -/
 
-theorem poll_fwd_drop (c : Cfg) (buf : List Block) (b : Block) (rs : List (Option Ev))
-    (hU : b.number > c.untilN) : poll c buf (some (.fwd b) :: rs) = (flush buf, rs) := by
+theorem poll_fwd_drop (c : Cfg) (lp : Option Nat) (buf : List Block) (b : Block) (rs : List (Option Ev))
+    (hU : b.number > c.untilN) : poll c lp buf (some (.fwd b) :: rs) = (flush buf, rs, lp) := by
   simp only [poll]; rw [if_pos hU]
 
-theorem poll_fwd_ret (c : Cfg) (buf : List Block) (b : Block) (rs : List (Option Ev))
+theorem poll_fwd_ret (c : Cfg) (lp : Option Nat) (buf : List Block) (b : Block) (rs : List (Option Ev))
     (hU : ¬ b.number > c.untilN) (hret : (buf ++ [b]).length ≥ c.maxPer ∨ b.number ≥ c.untilN) :
-    poll c buf (some (.fwd b) :: rs) = (some (.forwards (buf ++ [b])), rs) := by
+    poll c lp buf (some (.fwd b) :: rs) = (some (.forwards (buf ++ [b])), rs, some b.slot) := by
   simp only [poll]; rw [if_neg hU, if_pos hret]
 
-theorem poll_fwd_cont (c : Cfg) (buf : List Block) (b : Block) (rs : List (Option Ev))
+theorem poll_fwd_cont (c : Cfg) (lp : Option Nat) (buf : List Block) (b : Block) (rs : List (Option Ev))
     (hU : ¬ b.number > c.untilN) (hret : ¬ ((buf ++ [b]).length ≥ c.maxPer ∨ b.number ≥ c.untilN)) :
-    poll c buf (some (.fwd b) :: rs) = poll c (buf ++ [b]) rs := by
+    poll c lp buf (some (.fwd b) :: rs) = poll c (some b.slot) (buf ++ [b]) rs := by
   simp only [poll]; rw [if_neg hU, if_neg hret]
 
-theorem poll_back_skip (c : Cfg) (buf : List Block) (rs : List (Option Ev)) :
-    poll c buf (some (.back c.fromSlot) :: rs) = poll c buf rs := by
-  simp only [poll, if_true]
+theorem poll_back_skip (c : Cfg) (lp : Option Nat) (buf : List Block) (s : Nat) (rs : List (Option Ev))
+    (hf : s = c.fromSlot ∧ lp = none) :
+    poll c lp buf (some (.back s) :: rs) = poll c lp buf rs := by
+  simp only [poll]; rw [if_pos hf]
 
-theorem poll_back_trunc (c : Cfg) (buf buf' : List Block) (s : Nat) (rs : List (Option Ev))
-    (hf : ¬ s = c.fromSlot) (ht : truncAt s buf = some buf') :
-    poll c buf (some (.back s) :: rs) = poll c buf' rs := by
+theorem poll_back_trunc (c : Cfg) (lp : Option Nat) (buf buf' : List Block) (s : Nat) (rs : List (Option Ev))
+    (hf : ¬ (s = c.fromSlot ∧ lp = none)) (ht : truncAt s buf = some buf') :
+    poll c lp buf (some (.back s) :: rs) = poll c (some s) buf' rs := by
   simp only [poll]; rw [if_neg hf, ht]
 
-theorem poll_back_full (c : Cfg) (buf : List Block) (s : Nat) (rs : List (Option Ev))
-    (hf : ¬ s = c.fromSlot) (ht : truncAt s buf = none) :
-    poll c buf (some (.back s) :: rs) = (some (.backward s), rs) := by
+theorem poll_back_full (c : Cfg) (lp : Option Nat) (buf : List Block) (s : Nat) (rs : List (Option Ev))
+    (hf : ¬ (s = c.fromSlot ∧ lp = none)) (ht : truncAt s buf = none) :
+    poll c lp buf (some (.back s) :: rs) = (some (.backward s), rs, some s) := by
   simp only [poll]; rw [if_neg hf, ht]
 
-theorem poll_refines (c : Cfg) : ∀ (rs : List (Option Ev)) (buf S V : List Block),
-    Inv c S buf V → Good c V rs →
-    ∃ pre, rs = pre ++ (poll c buf rs).2 ∧ (rs = [] ∨ pre ≠ []) ∧
-      Inv c (applyOut S (poll c buf rs).1) [] (applyAll V pre) ∧
-      Good c (applyAll V pre) (poll c buf rs).2 := by
+theorem poll_refines (c : Cfg) : ∀ (rs : List (Option Ev)) (lp : Option Nat) (buf S V : List Block),
+    Inv c S buf V → Good c lp V rs →
+    ∃ pre, rs = pre ++ (poll c lp buf rs).2.1 ∧ (rs = [] ∨ pre ≠ []) ∧
+      Inv c (applyOut S (poll c lp buf rs).1) [] (applyAll V pre) ∧
+      Good c (poll c lp buf rs).2.2 (applyAll V pre) (poll c lp buf rs).2.1 := by
   intro rs
   induction rs with
   | nil =>
-    intro buf S V hI _
+    intro lp buf S V hI _
     exact ⟨[], by simp [poll], Or.inl rfl, by simpa [poll, applyAll] using inv_flush hI, by simp [poll, Good]⟩
   | cons r rs ih =>
-    intro buf S V hI hG
+    intro lp buf S V hI hG
     cases r with
     | none =>
       exact ⟨[none], by simp [poll], Or.inr (by simp), by simpa [poll, applyAll] using inv_flush hI,
@@ -366,104 +375,134 @@ theorem poll_refines (c : Cfg) : ∀ (rs : List (Option Ev)) (buf S V : List Blo
         obtain ⟨hgb, hG'⟩ := hG
         simp only [applyEv] at hG'
         by_cases hU : b.number > c.untilN
-        · rw [poll_fwd_drop c buf b rs hU]
+        · rw [poll_fwd_drop c lp buf b rs hU]
+          simp only [lpNext, if_pos hU] at hG'
           exact ⟨[some (.fwd b)], rfl, Or.inr (by simp), inv_fwd_drop hI hgb hU, hG'⟩
         · have hI' := inv_fwd_keep hI hgb hU
+          simp only [lpNext, if_neg hU] at hG'
           by_cases hret : (buf ++ [b]).length ≥ c.maxPer ∨ b.number ≥ c.untilN
-          · rw [poll_fwd_ret c buf b rs hU hret]
+          · rw [poll_fwd_ret c lp buf b rs hU hret]
             refine ⟨[some (.fwd b)], rfl, Or.inr (by simp), ?_, hG'⟩
             have := inv_flush hI'
             have hne : buf ++ [b] ≠ [] := by simp
             simp only [flush, hne, if_false] at this
             exact this
-          · rw [poll_fwd_cont c buf b rs hU hret]
-            obtain ⟨pre, h1, _, h3, h4⟩ := ih (buf ++ [b]) S (V ++ [b]) hI' hG'
+          · rw [poll_fwd_cont c lp buf b rs hU hret]
+            obtain ⟨pre, h1, _, h3, h4⟩ := ih (some b.slot) (buf ++ [b]) S (V ++ [b]) hI' hG'
             exact ⟨some (.fwd b) :: pre, by rw [List.cons_append, ← h1], Or.inr (by simp), h3, h4⟩
       | back s =>
         obtain ⟨hgb, hG'⟩ := hG
         simp only [applyEv] at hG'
-        by_cases hf : s = c.fromSlot
-        · -- the skipped roll-back is a no-op of the abstract chain
-          subst hf
-          simp only [GoodEv, if_true] at hgb
-          have hV : V.filter (fun x => x.slot ≤ c.fromSlot) = V := by
+        by_cases hf : s = c.fromSlot ∧ lp = none
+        · -- the skipped initial roll-back is a no-op of the abstract chain
+          simp only [GoodEv, if_pos hf] at hgb
+          simp only [lpNext, if_pos hf] at hG'
+          have hV : V.filter (fun x => x.slot ≤ s) = V := by
             rw [List.filter_eq_self]; intro y hy; simpa using hgb y hy
           rw [hV] at hG'
-          rw [poll_back_skip]
-          obtain ⟨pre, h1, _, h3, h4⟩ := ih buf S V hI hG'
-          refine ⟨some (.back c.fromSlot) :: pre, by rw [List.cons_append, ← h1], Or.inr (by simp), ?_, ?_⟩
+          rw [poll_back_skip c lp buf s rs hf]
+          obtain ⟨pre, h1, _, h3, h4⟩ := ih lp buf S V hI hG'
+          refine ⟨some (.back s) :: pre, by rw [List.cons_append, ← h1], Or.inr (by simp), ?_, ?_⟩
           · simpa only [applyAll, applyEv, hV] using h3
           · simpa only [applyAll, applyEv, hV] using h4
-        · simp only [GoodEv, hf, if_false] at hgb
+        · simp only [GoodEv, if_neg hf] at hgb
+          simp only [lpNext, if_neg hf] at hG'
           cases ht : truncAt s buf with
           | some buf' =>
             have hI' := inv_back_trunc hI ht
-            rw [poll_back_trunc c buf buf' s rs hf ht]
-            obtain ⟨pre, h1, _, h3, h4⟩ := ih buf' S _ hI' hG'
+            rw [poll_back_trunc c lp buf buf' s rs hf ht]
+            obtain ⟨pre, h1, _, h3, h4⟩ := ih (some s) buf' S _ hI' hG'
             exact ⟨some (.back s) :: pre, by rw [List.cons_append, ← h1], Or.inr (by simp), h3, h4⟩
           | none =>
-            rw [poll_back_full c buf s rs hf ht]
+            rw [poll_back_full c lp buf s rs hf ht]
             exact ⟨[some (.back s)], rfl, Or.inr (by simp), inv_back_full hI ht hgb, hG'⟩
 
 /-! ## the import loop -/
 
-/-- `while let Some(blocks) = streamer.poll_next()`; the fuel only bounds the model's recursion -/
-def run (c : Cfg) : Nat → List Block → List (Option Ev) → List Block × List (Option Ev)
-  | 0, S, rs => (S, rs)
-  | fuel + 1, S, rs =>
-    match poll c [] rs with
-    | (none, rest) => (S, rest)
-    | (some out, rest) => run c fuel (applyOut S (some out)) rest
+/-- `while let Some(blocks) = streamer.poll_next()`; the fuel only bounds the model's recursion.
+Returns the store, the unconsumed replies and the streamer's last polled slot. -/
+def run (c : Cfg) : Nat → Option Nat → List Block → List (Option Ev) → List Block × List (Option Ev) × Option Nat
+  | 0, lp, S, rs => (S, rs, lp)
+  | fuel + 1, lp, S, rs =>
+    match poll c lp [] rs with
+    | (none, rest, lp') => (S, rest, lp')
+    | (some out, rest, lp') => run c fuel lp' (applyOut S (some out)) rest
 
-theorem run_refines (c : Cfg) : ∀ (fuel : Nat) (S V : List Block) (rs : List (Option Ev)),
-    Inv c S [] V → Good c V rs →
-    ∃ pre, rs = pre ++ (run c fuel S rs).2 ∧ Inv c (run c fuel S rs).1 [] (applyAll V pre) := by
+theorem run_refines (c : Cfg) : ∀ (fuel : Nat) (lp : Option Nat) (S V : List Block) (rs : List (Option Ev)),
+    Inv c S [] V → Good c lp V rs →
+    ∃ pre, rs = pre ++ (run c fuel lp S rs).2.1 ∧ Inv c (run c fuel lp S rs).1 [] (applyAll V pre) := by
   intro fuel
   induction fuel with
-  | zero => intro S V rs hI _; exact ⟨[], by simp [run], by simpa [run, applyAll] using hI⟩
+  | zero => intro lp S V rs hI _; exact ⟨[], by simp [run], by simpa [run, applyAll] using hI⟩
   | succ fuel ih =>
-    intro S V rs hI hG
-    obtain ⟨pre, h1, _, h3, h4⟩ := poll_refines c rs [] S V hI hG
+    intro lp S V rs hI hG
+    obtain ⟨pre, h1, _, h3, h4⟩ := poll_refines c rs lp [] S V hI hG
     simp only [run]
-    cases hp : poll c [] rs with
-    | mk out rest =>
-      rw [hp] at h1 h3 h4
-      cases out with
-      | none => exact ⟨pre, h1, by simpa [applyOut] using h3⟩
-      | some o =>
-        simp only
-        obtain ⟨pre', g1, g2⟩ := ih _ _ rest h3 h4
-        refine ⟨pre ++ pre', ?_, ?_⟩
-        · rw [List.append_assoc, ← g1]; exact h1
-        · rw [applyAll_append]; exact g2
+    cases hp : poll c lp [] rs with
+    | mk out rest' =>
+      cases rest' with
+      | mk rest lp' =>
+        rw [hp] at h1 h3 h4
+        cases out with
+        | none => exact ⟨pre, h1, by simpa [applyOut] using h3⟩
+        | some o =>
+          simp only
+          obtain ⟨pre', g1, g2⟩ := ih lp' _ _ rest h3 h4
+          refine ⟨pre ++ pre', ?_, ?_⟩
+          · rw [List.append_assoc, ← g1]; exact h1
+          · rw [applyAll_append]; exact g2
 
 /-- **C13, layer 1.** On a sorted store below the target, for every reply script that is *good*
-(forwards extend the chain; a roll-back to the scan's start slot happens only when it is a no-op;
-any other roll-back targets an existing point), the importer's store equals the naive application
-of the consumed events, cut at the target — whatever the batch size, buffer truncations and discards. -/
+(forwards extend the chain; the INITIAL roll-back of the scan — the echo of the requested intersection —
+is a no-op; every other roll-back targets an existing point or an empty chain), the importer's store
+equals the naive application of the consumed events, cut at the target — whatever the batch size,
+buffer truncations and discards. A scan starts with `lp = none`. -/
 theorem import_refines (c : Cfg) (fuel : Nat) (S0 : List Block) (rs : List (Option Ev))
-    (hS : Sorted S0) (hU : ∀ x ∈ S0, x.number ≤ c.untilN) (hG : Good c S0 rs) :
-    ∃ pre, rs = pre ++ (run c fuel S0 rs).2 ∧
-      (run c fuel S0 rs).1 = (applyAll S0 pre).filter (fun x => x.number ≤ c.untilN) := by
+    (hS : Sorted S0) (hU : ∀ x ∈ S0, x.number ≤ c.untilN) (hG : Good c none S0 rs) :
+    ∃ pre, rs = pre ++ (run c fuel none S0 rs).2.1 ∧
+      (run c fuel none S0 rs).1 = (applyAll S0 pre).filter (fun x => x.number ≤ c.untilN) := by
   have hI : Inv c S0 [] S0 := by
     refine ⟨hS, ?_, Or.inl rfl⟩
     rw [List.append_nil]; symm; rw [List.filter_eq_self]; intro x hx; simpa using hU x hx
-  obtain ⟨pre, h1, h2⟩ := run_refines c fuel S0 S0 rs hI hG
+  obtain ⟨pre, h1, h2⟩ := run_refines c fuel none S0 S0 rs hI hG
   exact ⟨pre, h1, by simpa using h2.2.1⟩
 
-/-! ## the two excluded classes are real -/
+/-! ## the excluded classes are real -/
 
 def P : Block := ⟨100, 1, 10⟩
 def B1 : Block := ⟨101, 2, 20⟩
 def B2 : Block := ⟨102, 3, 30⟩
 def C1 : Block := ⟨201, 2, 21⟩
 
-/-- class 1: a real roll-back to the scan's start point after forwards is skipped -/
+/-- the streamer BEFORE the repair: every roll-back to the scan's start slot is skipped -/
+def pollOld (c : Cfg) : List Block → List (Option Ev) → Option Out × List (Option Ev)
+  | buf, [] => (flush buf, [])
+  | buf, none :: rs => (flush buf, rs)
+  | buf, some (.fwd b) :: rs =>
+    if b.number > c.untilN then (flush buf, rs)
+    else if (buf ++ [b]).length ≥ c.maxPer ∨ b.number ≥ c.untilN then (some (.forwards (buf ++ [b])), rs)
+    else pollOld c (buf ++ [b]) rs
+  | buf, some (.back s) :: rs =>
+    if s = c.fromSlot then pollOld c buf rs
+    else match truncAt s buf with
+      | some buf' => pollOld c buf' rs
+      | none => (some (.backward s), rs)
+
+def runOld (c : Cfg) : Nat → List Block → List (Option Ev) → List Block × List (Option Ev)
+  | 0, S, rs => (S, rs)
+  | fuel + 1, S, rs =>
+    match pollOld c [] rs with
+    | (none, rest) => (S, rest)
+    | (some out, rest) => runOld c fuel (applyOut S (some out)) rest
+
+/-- class 1 (REPAIRED): before the repair a real roll-back to the scan's start point after forwards
+was skipped — `B1, B2` stayed stored; the repaired streamer converges -/
 theorem skip_counterexample :
     let c : Cfg := ⟨10, 100, 100⟩
     let rs := [some (.back 10), some (.fwd B1), some (.fwd B2), some (.back 10), some (.fwd C1), none]
-    (run c 10 [P] rs).1 = [P, B1, B2] ∧
-      (applyAll [P] rs).filter (fun x => x.number ≤ c.untilN) = [P, C1] := by
+    (runOld c 10 [P] rs).1 = [P, B1, B2] ∧
+      (applyAll [P] rs).filter (fun x => x.number ≤ c.untilN) = [P, C1] ∧
+      (run c 10 none [P] rs).1 = [P, C1] := by
   decide
 
 def Q5 : Block := ⟨105, 5, 50⟩
@@ -475,7 +514,7 @@ stored block number is then ignored -/
 theorem below_store_counterexample :
     let c : Cfg := ⟨60, 100, 100⟩
     let rs := [some (.back 60), some (.back 30), some (.fwd R5), none]
-    (run c 10 [Q5, Q6] rs).1 = [Q5, Q6] ∧
+    (run c 10 none [Q5, Q6] rs).1 = [Q5, Q6] ∧
       (applyAll [Q5, Q6] rs).filter (fun x => x.number ≤ c.untilN) = [R5] := by
   decide
 
